@@ -550,6 +550,9 @@ func (x *vc) applyContract(fr *frame, st *state, fc *funcContract, callee *ssa.F
 		k := x.callResOrd[what]
 		x.callResOrd[what] = k + 1
 		x.callRes[fmt.Sprintf("%s#%d", what, k)] = res
+		if fr.top {
+			x.countCall(st, fmt.Sprintf("%s#%d", what, k))
+		}
 		if x.callGuard == nil {
 			x.callGuard = map[string]string{}
 		}
@@ -890,6 +893,39 @@ func (x *vc) stdlibModel(fr *frame, st *state, callee *ssa.Function, args []Val,
 		w := x.define("width", sInt, app("str_width", s.T, "0"))
 		x.trusted["unicode/utf8.DecodeRuneInString: exact UTF-8 decoding table (prelude u8rune/u8width)"] = true
 		return Val{Tuple: []Val{{T: r, Typ: types.Typ[types.Rune]}, {T: w, Typ: intT}}, Typ: resT}, true
+	case "unicode/utf8.DecodeLastRuneInString", "unicode/utf8.DecodeLastRune":
+		// documented: (RuneError, 0) for an empty string, otherwise a width between 1 and 4 that does not exceed the length
+		// (RuneError, 1 for an invalid encoding); the rune value itself is left unconstrained
+		r := x.freshResult(st, resT, "lastrune")
+		if len(r.Tuple) == 2 {
+			n := app("slen", args[0].T)
+			if x.srt.sortOf(args[0].Typ) == sSlice {
+				n = app("sl_len", args[0].T)
+			}
+			w := r.Tuple[1].T
+			x.trusted["unicode/utf8.DecodeLastRuneInString: width 0 for the empty string, else 1..4 and at most the length"] = true
+			x.assume(st.guard, and(eq(eq(w, "0"), eq(n, "0")), app("<=", "0", w), app("<=", w, "4"), app("<=", w, n), app("<=", "0", r.Tuple[0].T), app("<=", r.Tuple[0].T, "1114111")))
+		}
+		return r, true
+	case "strings.IndexFunc", "strings.LastIndexFunc":
+		// -1 or the byte offset of a code point of s (the predicate is called on runes of s only; its results are not
+		// related to the offset here)
+		// The first and the last offset for the same string and the same predicate (a pure function of the rune) are
+		// related: both -1 or first <= last.
+		x.needDecl("(declare-fun str_firstfn (Str Int) Int)")
+		x.needDecl("(declare-fun str_lastfn (Str Int) Int)")
+		fid := args[1].T
+		if fid == "" {
+			fid = "0"
+		}
+		fst, lst := app("str_firstfn", args[0].T, fid), app("str_lastfn", args[0].T, fid)
+		x.trusted["strings.IndexFunc/LastIndexFunc: -1 <= r < len(s); for the same string and predicate both are -1 or first <= last (the predicate is assumed to be a pure function of the rune)"] = true
+		x.assume(st.guard, and(app("<=", "(- 1)", fst), app("<", fst, app("slen", args[0].T)), app("<=", "(- 1)", lst), app("<", lst, app("slen", args[0].T)),
+			eq(app("<", fst, "0"), app("<", lst, "0")), app("<=", fst, lst)))
+		if name == "strings.IndexFunc" {
+			return Val{T: x.define("indexfunc", sInt, fst), Typ: intT}, true
+		}
+		return Val{T: x.define("lastindexfunc", sInt, lst), Typ: intT}, true
 	case "unicode/utf8.RuneCountInString":
 		r := x.freshVal("runecount", intT, st)
 		x.assume(st.guard, and(app("<=", "0", r.T), app("<=", r.T, app("slen", args[0].T)), implies(app(">", app("slen", args[0].T), "0"), app(">", r.T, "0")),
@@ -907,6 +943,13 @@ func (x *vc) stdlibModel(fr *frame, st *state, callee *ssa.Function, args []Val,
 			x.assume(st.guard, and(app("<=", "(- 1)", r.T), implies(app(">=", r.T, "0"), app("<=", app("+", r.T, app("slen", args[1].T)), app("slen", args[0].T)))))
 		} else {
 			x.assume(st.guard, and(app("<=", "(- 1)", r.T), app("<", r.T, app("slen", args[0].T))))
+			if name == "strings.IndexRune" {
+				// a valid code point other than U+FFFD found at r occupies its UTF-8 length there
+				c := args[1].T
+				rl := ite(app("<", c, "128"), "1", ite(app("<", c, "2048"), "2", ite(app("<", c, "65536"), "3", "4")))
+				valid := and(or(and(app("<=", "0", c), app("<", c, "55296")), and(app("<", "57343", c), app("<=", c, "1114111"))), not(eq(c, "65533")))
+				x.assume(st.guard, implies(and(app(">=", r.T, "0"), valid), app("<=", app("+", r.T, rl), app("slen", args[0].T))))
+			}
 		}
 		x.trusted[name+": -1 <= r and r+len(sep) <= len(s)"] = true
 		return r, true
